@@ -925,6 +925,9 @@ class Cluster:
         if k == 22:
             return self.init_pid(node, req)
         if k == 24:
+            d = getattr(self, "add_partitions_delay", 0.0)
+            if d:
+                await asyncio.sleep(d)  # slow coordinator: AddPartitionsToTxn stays unanswered for a while
             return self.add_partitions(node, req)
         if k == 25:
             return self.add_offsets(node, req)
@@ -1218,14 +1221,24 @@ class _Rnd:
 
     def __init__(self, pick=None):
         self.pick = pick
+        self.n = 0
 
     def choice(self, seq):
+        """round robin: deterministic, but every element is picked eventually (a fixed pick would
+        livelock a client whose first broker is down, which real randomness does not)"""
         seq = list(seq)
         if self.pick is not None:
             return seq[self.pick(len(seq))]
-        return seq[0]
+        return seq[self._next() % len(seq)]
+
+    def _next(self):
+        # fixed-seed LCG: deterministic for re-execution, but not in lock-step with the caller's loops
+        self.n = (self.n * 1103515245 + 12345) & 0x7FFFFFFF
+        return self.n >> 16
 
     def shuffle(self, seq):
+        k = self._next() % max(len(seq), 1)
+        seq[:] = seq[k:] + seq[:k]
         return None
 
     def random(self):
